@@ -3,7 +3,7 @@
 for every seeded/<name>/ apply its patch (patch.rebased.diff if present), run the checks that caught it when it was
 stored (meta.json), record whether they still do."""
 import json, os, subprocess, sys, glob, time
-repo, outf, names = sys.argv[1], sys.argv[2], sys.argv[3:]
+repo, outf, names = sys.argv[1], os.path.abspath(sys.argv[2]), sys.argv[3:]
 assert os.path.realpath(repo) != "/repo"
 root = os.path.dirname(os.path.dirname(os.path.abspath(__file__)))
 env = dict(os.environ, VERIF_REPO=repo)
